@@ -72,14 +72,30 @@ def try_form(c, bkind, hs, els, fin, hkind="pe", inner=None):
     return tuple(parts)
 
 
-def with_form(c, nman, named, bkind, inner=None):
+def manager(c, mkind):
+    """A context-manager expression: plain call, or a statement-producing form
+    with an effect of its own (it must still run exactly once)."""
+    if mkind == "plain":
+        return ("CM", c.sites(2), c.leaf("v"))
+    if mkind == "sx":
+        q = c.qname()
+        s = c.sites()
+        return ("do", ("setv", q, ("E", s, c.leaf("v"))), ("CM", c.sites(2), q))
+    if mkind == "try":
+        s = c.sites()
+        return ("try", ("E", s, ("CM", c.sites(2), c.leaf("v"))), ("finally", ("E", c.sites())))
+    raise ValueError(mkind)
+
+
+def with_form(c, nman, named, bkind, inner=None, mkinds=None):
     m = ["["]
+    mkinds = mkinds or ["plain"] * nman
     if nman == 1 and not named:
-        m.append(("CM", c.sites(2), c.leaf("v")))
+        m.append(manager(c, mkinds[0]))
     else:
         for i in range(nman):
             m.append(("c%d" % i) if named else "_")
-            m.append(("CM", c.sites(2), c.leaf("v")))
+            m.append(manager(c, mkinds[i]))
     body = []
     if inner is not None:
         body.append(inner(c))
@@ -115,6 +131,32 @@ def skeletons(tier):
         c = Ctx()
         sk = ("let", ("[", "e", "x0"), try_form(c, "pe", hs, None, "pe"), ("#(", "e",))
         out.append(("try-outer-e-let", sk))
+    # --- a handler that reads an OUTER variable named like an earlier handler's except variable
+    for hs1, hs2 in (((("n", "E1"),), "E3"), ((("nt", ("E1", "E2")),), "E3"), ((("n", "E3"),), "E1")):
+        for place in ("module", "fn", "let"):
+            c = Ctx()
+            t = ["try", val(c, "pe"), handler(c, hs1[0], "pe"),
+                 ("except", ("[", hs2), ("E", c.sites(), "e")), ("finally", val(c, "pe"))]
+            body = (tuple(t), ("#(", "e"))
+            if place == "module":
+                sk = ("do", ("setv", "e", "x0")) + body
+            elif place == "fn":
+                sk = ("call", ("fn", ("[",), ("setv", "e", "x0")) + body)
+            else:
+                sk = ("let", ("[", "e", "x0")) + body
+            out.append(("try-outer-e-later-handler-" + place, sk))
+    # --- statement-producing manager expressions (each must run exactly once)
+    for nman in (1, 2, 3):
+        import itertools as _it
+
+        for mk in _it.product(("plain", "sx", "try"), repeat=nman):
+            if all(k == "plain" for k in mk):
+                continue
+            if nman == 3 and (tier == "quick" and mk.count("plain") < 2):
+                continue
+            for named in ((False, True) if nman < 3 else (True,)):
+                c = Ctx()
+                out.append(("with-stmt-managers", with_form(c, nman, named, "pe", None, list(mk))))
     # --- with forms
     for nman in (1, 2):
         for named in (False, True):
